@@ -464,6 +464,14 @@ def run(ctx):
     side.result()     # liveness / SSP runs started above (a model-level failure there raises Inconclusive here)
     side_pool.shutdown()
 
+    # ------------------------------------------------------------ exporter phase: exporters that overrun the export
+    # deadline while further exports become due (BSPOverrun*.tla, harness/c01/overrun.go, checks/c01_overrun.py)
+    import importlib.util
+    _sp = importlib.util.spec_from_file_location("c01_overrun", os.path.join(os.path.dirname(os.path.abspath(__file__)), "c01_overrun.py"))
+    c01_overrun = importlib.util.module_from_spec(_sp)
+    _sp.loader.exec_module(c01_overrun)
+    c01_overrun.stage(ctx, binp, mc_defs, cfg_name, ends, scenario)
+
     # ------------------------------------------------------------ spec -> code: behaviours as gate scripts
     scenarios = []
     sims = [((2, 2, 2, 2, False, 1, 1), {}), ((2, 1, 1, 1, False, 1, 2), {}), ((2, 2, 1, 1, True, 1, 1), {}),
